@@ -541,15 +541,16 @@ def _restrict_atom(at: Atom, facts: "Facts"):
             return Rat.const(1 if v else 0)
     if at.op == "ite":
         c, a, b = at.args
-        v = facts.lookup(c)
+        c2 = restrict(c, facts)
+        v = facts.lookup(c2)
         if v is True:
             return restrict(a, facts) if isinstance(a, Rat) else None
         if v is False:
             return restrict(b, facts) if isinstance(b, Rat) else None
-        na = restrict(a, facts.assume(c, True))
-        nb = restrict(b, facts.assume(c, False))
-        if na is not a or nb is not b:
-            r = mk_ite(c, na, nb, _restricted=True)
+        na = restrict(a, facts.assume(c2, True))
+        nb = restrict(b, facts.assume(c2, False))
+        if na is not a or nb is not b or c2 is not c:
+            r = mk_ite(c2, na, nb, _restricted=True)
             return r if isinstance(r, Rat) else None
         return None
     if at.op not in ELEMENTWISE:
@@ -563,6 +564,12 @@ def _restrict_atom(at: Atom, facts: "Facts"):
     if changed:
         if at.op == "exp":
             return mk_exp(newargs[0])
+        if at.op in ("and", "or") and all(isinstance(x, Rat) for x in newargs):
+            return mk_bool(at.op, *newargs)
+        if at.op == "not" and isinstance(newargs[0], Rat):
+            return mk_not(newargs[0])
+        if at.op in _NEG and len(newargs) == 1 and isinstance(newargs[0], Rat):
+            return mk_cmp(at.op, newargs[0], Rat.const(0))
         return Rat.of(atom(at.op, *newargs))
     return None
 
@@ -662,7 +669,10 @@ def lift(x, depth=0):
     _collect_conds(x, conds, set())
     if not conds:
         return ("leaf", x)
-    c = min(conds.values(), key=lambda a: a.sortkey())
+    # expand first on conditions that do not themselves contain an ite (innermost first): a condition with a
+    # nested ite changes identity once the inner one is decided, which would make the tree shape order-dependent
+    simple = [a for a in conds.values() if not any(_has_ite(y) for y in a.args)]
+    c = min(simple or list(conds.values()), key=lambda a: a.sortkey())
     cr = Rat.of(c)
     hi = lift(restrict(x, Facts().assume(cr, True)), depth + 1)
     lo = lift(restrict(x, Facts().assume(cr, False)), depth + 1)
